@@ -311,7 +311,7 @@ func runCheck(id, tier, only string, workers int, verbose bool) int {
 		groups := map[string]*group{}
 		var gorder []string
 		for _, v := range rep.Violations {
-			k := v.Kind + "|" + v.Msg + "|" + strings.Join(v.Known, ",")
+			k := v.Kind + "|" + msgClass(v.Msg) + "|" + strings.Join(v.Known, ",")
 			g, ok := groups[k]
 			if !ok {
 				g = &group{key: k, first: v}
@@ -519,6 +519,15 @@ func runCheck(id, tier, only string, workers int, verbose bool) int {
 		return 3
 	}
 	return 0
+}
+
+// msgClass is the part of an assertion message before " :: " (the rest is
+// per-instance detail).
+func msgClass(m string) string {
+	if k := strings.Index(m, " :: "); k >= 0 {
+		return m[:k]
+	}
+	return m
 }
 
 func firstLine(s string) string {
